@@ -136,13 +136,18 @@ const CRLF: &[u8] = b"\r\n";
 
 /// Replaces all CRLF with LF
 pub fn replace_crlf<'a>(bytes: &'a [u8]) -> Cow<'a, [u8]> {
-    if let Some(index) = bytes.windows(2).position(|window| window == CRLF) {
-        [
-            Cow::from(&bytes[0..index]),
-            replace_crlf(&bytes[index + 1..]),
-        ]
-        .concat()
-        .into()
+    if let Some(first) = bytes.windows(2).position(|window| window == CRLF) {
+        // one pass (no recursion: outputs can have any number of lines)
+        let mut replaced = bytes[0..first].to_vec();
+        let mut index = first;
+        while index < bytes.len() {
+            // a CR that is directly followed by LF is dropped
+            if !(bytes[index] == b'\r' && index + 1 < bytes.len() && bytes[index + 1] == b'\n') {
+                replaced.push(bytes[index]);
+            }
+            index += 1;
+        }
+        replaced.into()
     } else {
         bytes.into()
     }
